@@ -310,7 +310,8 @@ def main(tier):
     for q in ('TEMPERATURE', 'PRESSURE', 'ANGLE', 'SPEED', 'LENGTH', None):
         for pref in ('c', 'f', 'bar', 'psi', 'deg', 'kts', 'xyz', None):
             run.add(ApplyUnitsTask(q, pref))
-    from contracts.decoder_c import init_tasks
+    from contracts.decoder_c import init_tasks, InitPrefsTask
+    run.add(InitPrefsTask('C18'))
     run.trust('float model S; round(x, nd) by specification: a double within half a unit of 10^-nd of x (ties unspecified)', 'math.degrees(x) = fl(x * fl(180/pi))', 'z3 5.1')
     run.assume('preferences are lower-cased by the decoder constructor (C10 constructor task) and applied after add_data as the last state-free step of _call_decode_function (C11 obligations)',
                '|value| <= 1e12 in the converter obligations; psi: the library constant 6894.76 is accepted within 1e-6 relative of 6894.757')
